@@ -110,6 +110,53 @@ def spec_case(ctx, so=None):
     return spec, vg, text
 
 
+def ref_default_case(ctx):
+    """A SEQUENCE / SET whose members are REFERENCES (directly, through an alias, often imported) to
+    BOOLEAN / INTEGER / ENUMERATED / BIT STRING / OCTET STRING types and carry a DEFAULT (TRUE and FALSE
+    both): the DEFAULT clean-up by resolved type must be a fixed point from the second pass on."""
+    rng = ctx.rng
+    g = gen_asn1.Gen(rng, gen_asn1.Opts(max_depth=1, recursion=False, named_numbers=False,
+                                        kinds={'BOOLEAN', 'INTEGER', 'ENUMERATED', 'OCTET STRING', 'BIT STRING'}))
+    g.pending = {}
+    ref = lambda n: {'k': 'REF', 'name': n, 'size': None, 'c': None}
+    types = [('Flag', {'k': 'BOOLEAN'})]
+    targets = ['Flag']
+    for i in range(rng.randrange(1, 4)):
+        types.append(('B%d' % i, g.gen_type(1, allow_ref=False)))
+        targets.append('B%d' % i)
+    for i in range(rng.randrange(0, 3)):                       # aliases
+        types.append(('Al%d' % i, ref(rng.choice(targets))))
+        targets.append('Al%d' % i)
+    td = dict(types)
+
+    def rt(t):
+        while t['k'] == 'REF':
+            t = td[t['name']]
+        return t
+    members = []
+    picks = ['Flag', 'Flag'] + [rng.choice(targets) for _ in range(rng.randrange(1, 4))]
+    for i, tn in enumerate(picks):
+        r = rt(ref(tn))
+        v = (i == 0) if tn == 'Flag' and i < 2 else g.gen_value(r, simple=True)
+        members.append({'name': 'd%d' % i, 't': ref(tn), 'opt': ('default', v)})
+    rng.shuffle(members)
+    k = rng.randrange(1, len(members) + 1)
+    ext = None
+    if rng.random() < .4:
+        rest = members[k:]
+        ext = ([{'group': rest}] if rest and rng.random() < .5 else [{'member': m} for m in rest])
+        members = members[:k]
+    types.append(('Cfg', {'k': rng.choice(['SEQUENCE', 'SEQUENCE', 'SET']), 'root': members, 'ext': ext}))
+    if rng.random() < .4:
+        types.append(('Cfgs', {'k': 'SEQUENCE OF', 'elem': ref('Cfg'), 'size': None}))
+    spec = G.Spec(rng.choice(['AUTOMATIC', 'AUTOMATIC', 'IMPLICIT', 'EXPLICIT']), rng.random() < .2, types, [])
+    if spec.tags != 'AUTOMATIC':
+        G.mk_tags(rng, spec, G.SpecOpts(top_tags=False))
+    vg = G.value_gen(rng, spec)
+    mods = G.arrange(rng, spec, reorganise=True, kinds=('split', 'permute'))
+    return spec, vg, G.render_text(mods)
+
+
 def canon(ex):
     """Key-sorted copy of an exported dictionary: Python's == on dicts ignores
     insertion order, and eval(pformat(d)) returns the dictionary with sorted keys."""
@@ -303,7 +350,7 @@ def prepare(vg, spec, nvals, rng):
     return names, vals, eff, rt_of
 
 
-def corr_and_pt(ctx, ncases, extra=True):
+def corr_and_pt(ctx, ncases, extra=True, targeted=0):
     cases = []
     for text in (EXTRA_TEXTS if extra else []):
         d0 = asn1tools.parse_string(text)
@@ -312,8 +359,12 @@ def corr_and_pt(ctx, ncases, extra=True):
         cases.append(dict(text=text, before=X.ex_dict(d0), sorted=X.ex_dict(eval(pprint.pformat(d0))), hist=hist,
                           states=states, pre=lib.attempt(base_compiler.pre_process, copy.deepcopy(d0)), spec=None))
         ctx.case(('extra', text[:40]))
-    for _ in range(ncases):
-        spec, vg, text = spec_case(ctx)
+    for i in range(ncases):
+        if i < targeted:
+            spec, vg, text = ref_default_case(ctx)
+            ctx.count('ref-default-case')
+        else:
+            spec, vg, text = spec_case(ctx)
         try:
             d0 = asn1tools.parse_string(text)
         except Exception as e:  # noqa
@@ -553,7 +604,7 @@ def run(ctx):
     done = 0
     while done < total:
         n = min(50, total - done)
-        corr_and_pt(ctx, n, extra=done == 0)
+        corr_and_pt(ctx, n, extra=done == 0, targeted=12 if done == 0 else 5)
         done += n
     if not ok:
         common.proof_broken(ctx)
